@@ -753,6 +753,13 @@ impl Xot {
         let first_child = first_child.unwrap();
         // there is guaranteed to be a last child if there's a first child
         let last_child = self.last_child(node).unwrap();
+        // several children cannot take the place of an element that has no
+        // parent: they would become roots that are still each other's siblings
+        if self.parent(node).is_none() && first_child != last_child {
+            return Err(Error::InvalidOperation(
+                "Cannot unwrap an unattached element with more than one child".to_string(),
+            ));
+        }
         self.remove_element(node);
 
         let prev_node = self.previous_sibling(first_child);
